@@ -318,8 +318,7 @@ func funkContains(m *Machine, args []Value, g *Term, site ssa.Instruction) Value
 			inRange := Slt(ConstI(64, int64(i)), c.Len)
 			var hit *Term
 			if fv, ok := el.(*FuncV); ok {
-				r := m.callFuncV(fv, []Value{v}, And(g, inRange), site)
-				hit = r.(*Term)
+				hit = boolOr(m.callFuncV(fv, []Value{v}, And(g, inRange), site))
 			} else if elT != nil && types.Identical(et, elT) {
 				hit = valueEq(v, el)
 			} else {
@@ -367,8 +366,8 @@ func funkFilter(m *Machine, args []Value, g *Term, site ssa.Instruction) Value {
 			vals[i] = m.zero(et)
 			continue
 		}
-		r := m.callFuncV(fv, []Value{vals[i]}, And(g, inRange), site)
-		keep[i] = And(inRange, r.(*Term))
+		r := boolOr(m.callFuncV(fv, []Value{vals[i]}, And(g, inRange), site))
+		keep[i] = And(inRange, r)
 	}
 	arr := &ArrayV{E: make([]Value, n)}
 	cnt := Const(64, 0)
@@ -412,7 +411,7 @@ func sortSlice(m *Machine, args []Value, g *Term, site ssa.Instruction) Value {
 				continue
 			}
 			// swap if less(i+1, i)
-			r := m.callFuncV(less, []Value{ConstI(64, int64(i+1)), ConstI(64, int64(i))}, cg, site).(*Term)
+			r := boolOr(m.callFuncV(less, []Value{ConstI(64, int64(i+1)), ConstI(64, int64(i))}, cg, site))
 			for _, a := range c.Alts {
 				sw := And(cg, a.G, r)
 				if sw.IsFalse() {
@@ -541,4 +540,12 @@ func init() {
 		m.mapDelete(mv, args[1], g)
 		return nil
 	}
+}
+
+// boolOr: result of a predicate call; a call under an infeasible guard yields nothing.
+func boolOr(v Value) *Term {
+	if t, ok := v.(*Term); ok {
+		return t
+	}
+	return TS.False
 }
